@@ -101,10 +101,14 @@ pub fn c01(ctx: &Ctx) -> PropResult {
         src.push_str(&body);
         cases.push(run_case(src, "random-expression"));
     }
+    // (appended) texts that spell a value of another type against that value
+    for src in crate::props6::spelled_values_family() {
+        cases.push(run_case(src, "spelled-values"));
+    }
     let stats = run_cases(&ctx.driver, cases, &no_panic_oracle, &no_known, ctx.threads);
     PropResult {
         stats,
-        rule: format!("exhaustive operator table: 13 binary/logical operators x {0}x{0} operand exemplars (0, -0, 1, -1, fractions, 2^53+1, 1e308, inf, -inf, NaN, strings incl. non-ASCII, TRUE, FALSE, NULL, empty/one-element/nested lists, native object) and 2 unary operators x {0}; random expression trees to depth 5 (thorough 7) over literals, variables, assignment, indexing, indexed assignment, list literals, calls, with a probe procedure that displays a tag at operands; compared: output bytes, end class, error span; non-trivial = the run ended normally or with a runtime error; operands that change the length of the list another operand addresses; list + over 13 x 13 kinds of operand expression; every value class as the condition of REPEAT UNTIL (sequences false, false, true), IF, ELSE IF, NOT, AND, OR; numbers next to each other at eleven magnitudes x ten distances under == != <= >= <", EXEMPLARS.len()),
+        rule: format!("exhaustive operator table: 13 binary/logical operators x {0}x{0} operand exemplars (0, -0, 1, -1, fractions, 2^53+1, 1e308, inf, -inf, NaN, strings incl. non-ASCII, TRUE, FALSE, NULL, empty/one-element/nested lists, native object) and 2 unary operators x {0}; random expression trees to depth 5 (thorough 7) over literals, variables, assignment, indexing, indexed assignment, list literals, calls, with a probe procedure that displays a tag at operands; compared: output bytes, end class, error span; non-trivial = the run ended normally or with a runtime error; operands that change the length of the list another operand addresses; list + over 13 x 13 kinds of operand expression; every value class as the condition of REPEAT UNTIL (sequences false, false, true), IF, ELSE IF, NOT, AND, OR; numbers next to each other at eleven magnitudes x ten distances under == != <= >= <; texts that spell a value of another type against that value", EXEMPLARS.len()),
         exhaustive: false,
         notes: vec![],
     }
@@ -442,10 +446,14 @@ pub fn c02(ctx: &Ctx) -> PropResult {
     for src in crate::props6::repeat_count_family() {
         cases.push(run_case(src, "repeat-counts"));
     }
+    // (appended) depth and length: every block kind nested 1 .. 200 deep, ELSE IF chains and flat programs of 1 .. 300 parts
+    for src in crate::props6::deep_nesting_family() {
+        cases.push(run_case(src, "deep-nesting"));
+    }
     let stats = run_cases(&ctx.driver, cases, &newline_twin_oracle, &no_known, ctx.threads);
     PropResult {
         stats,
-        rule: "random control-flow skeletons (depth <= 3, <= 3 statements per block; IF/ELSE over 10 condition values incl. 0, -0, NULL, \"\", []; REPEAT TIMES with counts 0, 1, 2, 3, 2.7, -1, 0.99, variable; REPEAT UNTIL; FOR EACH over lists and strings incl. non-ASCII and an outer variable of the same name; BREAK/CONTINUE wherever a loop encloses) with a DISPLAY probe per statement; BREAK/CONTINUE at every position of a three-statement body of every loop form, bare and guarded, alone and nested; random general programs; non-trivial = ended normally or with a runtime error; every falsy and truthy value class as a condition REPEAT UNTIL re-tests, and under IF / unbraced IF / ELSE IF / NOT / AND / OR, directly, through a procedure and through an assignment; a callee's loop variable named like a variable of the caller; brace-less branches followed by ELSE on the same line and brace-less bodies at the very end of the input; every kind of value as the count of REPEAT n TIMES".into(),
+        rule: "random control-flow skeletons (depth <= 3, <= 3 statements per block; IF/ELSE over 10 condition values incl. 0, -0, NULL, \"\", []; REPEAT TIMES with counts 0, 1, 2, 3, 2.7, -1, 0.99, variable; REPEAT UNTIL; FOR EACH over lists and strings incl. non-ASCII and an outer variable of the same name; BREAK/CONTINUE wherever a loop encloses) with a DISPLAY probe per statement; BREAK/CONTINUE at every position of a three-statement body of every loop form, bare and guarded, alone and nested; random general programs; non-trivial = ended normally or with a runtime error; every falsy and truthy value class as a condition REPEAT UNTIL re-tests, and under IF / unbraced IF / ELSE IF / NOT / AND / OR, directly, through a procedure and through an assignment; a callee's loop variable named like a variable of the caller; brace-less branches followed by ELSE on the same line and brace-less bodies at the very end of the input; every kind of value as the count of REPEAT n TIMES; nesting depths 1 .. 200 and chains of 1 .. 300 parts, run".into(),
         exhaustive: false,
         notes: vec![],
     }
@@ -618,10 +626,14 @@ pub fn c03(ctx: &Ctx) -> PropResult {
             cases.push(run_case(nl, "bare-return-newline").aux(semi));
         }
     }
+    // (appended) brace-less branches followed by ELSE on the same or the next line (bare RETURN among them)
+    for src in crate::props6::unbraced_continuation_family() {
+        cases.push(run_case(src, "unbraced-continuation"));
+    }
     let stats = run_cases(&ctx.driver, cases, &newline_twin_oracle, &no_known, ctx.threads);
     PropResult {
         stats,
-        rule: "random programs with 1-3 procedures (0-3 parameters, bodies with nested IF / all three loops / RETURN valued or bare / recursion), calls nested in expressions, argument counts off by one, undefined names; RETURN (valued, bare, with expression, absent) at each of 3 positions inside 6 nesting wrappers followed by probes; fixed scenarios for recursion, mutual recursion, scope isolation in both directions, by-value / by-reference, argument order; non-trivial = ended normally or with a runtime error; every parameter count in 0..3, 254..256 against argument counts 0..4, 253..257, 511, 512; bodies of one statement without braces (and their braced twins) touching names of the caller; eleven ways to get a list back from a procedure x six operations through the result / the original; empty bodies in six forms with parameters named like the caller's variables; the same list for two or three parameters of one call; a callee's loop variable named like a variable of the caller".into(),
+        rule: "random programs with 1-3 procedures (0-3 parameters, bodies with nested IF / all three loops / RETURN valued or bare / recursion), calls nested in expressions, argument counts off by one, undefined names; RETURN (valued, bare, with expression, absent) at each of 3 positions inside 6 nesting wrappers followed by probes; fixed scenarios for recursion, mutual recursion, scope isolation in both directions, by-value / by-reference, argument order; non-trivial = ended normally or with a runtime error; every parameter count in 0..3, 254..256 against argument counts 0..4, 253..257, 511, 512; bodies of one statement without braces (and their braced twins) touching names of the caller; eleven ways to get a list back from a procedure x six operations through the result / the original; empty bodies in six forms with parameters named like the caller's variables; the same list for two or three parameters of one call; a callee's loop variable named like a variable of the caller; brace-less branches followed by ELSE on the same or the next line".into(),
         exhaustive: false,
         notes: vec![],
     }
@@ -749,10 +761,14 @@ pub fn c04(ctx: &Ctx) -> PropResult {
             cases.push(run_case(format!("{pre}DISPLAY(REMOVE(s, {i}))\nDISPLAY(s)\n"), &format!("remove:{name}")));
         }
     }
+    // (appended) a list stored into itself, observed through LENGTH and element reads only
+    for src in crate::props6::self_containing_family() {
+        cases.push(run_case(src, "self-containing").tag("allow-cyclic"));
+    }
     let stats = run_cases(&ctx.driver, cases, &no_panic_oracle, &no_known, ctx.threads);
     PropResult {
         stats,
-        rule: "random histories (length <= 12, thorough 30) over variables a, b (lists), c (string), d (alias): literal, assignment between variables, index read / write with 14 index values (-1, 0, 0.5, 1, 1.9, 2, LENGTH, LENGTH+0.5, LENGTH+1, LENGTH+2, NaN, inf, string, NULL), APPEND, INSERT, REMOVE, LENGTH, +, passing to a procedure that mutates then reassigns its parameter, nesting in a list, aliasing; all variables displayed after every step; plus every index value on a list and a non-ASCII string for read / write / INSERT / REMOVE; non-trivial = ended normally or with a runtime error; lists handed back by procedures (the parameter, an element, a local, through a second procedure, from a loop, a copy) changed through the result and through the original; FOR EACH while the body changes the list at the current, an earlier or a later position (index write, INSERT, REMOVE, APPEND, by name / alias, every ending); the operand-order family; statements whose operands change the length of the list they address; list + over 13 x 13 kinds of operand expression; the same list for several parameters; lists that come out of library calls which do not build them (MAP_GET, MAP_INSERT's result, REMOVE's result, indexed elements) changed through the result and through the container; lists stored into lists whose contents equal theirs".into(),
+        rule: "random histories (length <= 12, thorough 30) over variables a, b (lists), c (string), d (alias): literal, assignment between variables, index read / write with 14 index values (-1, 0, 0.5, 1, 1.9, 2, LENGTH, LENGTH+0.5, LENGTH+1, LENGTH+2, NaN, inf, string, NULL), APPEND, INSERT, REMOVE, LENGTH, +, passing to a procedure that mutates then reassigns its parameter, nesting in a list, aliasing; all variables displayed after every step; plus every index value on a list and a non-ASCII string for read / write / INSERT / REMOVE; non-trivial = ended normally or with a runtime error; lists handed back by procedures (the parameter, an element, a local, through a second procedure, from a loop, a copy) changed through the result and through the original; FOR EACH while the body changes the list at the current, an earlier or a later position (index write, INSERT, REMOVE, APPEND, by name / alias, every ending); the operand-order family; statements whose operands change the length of the list they address; list + over 13 x 13 kinds of operand expression; the same list for several parameters; lists that come out of library calls which do not build them (MAP_GET, MAP_INSERT's result, REMOVE's result, indexed elements) changed through the result and through the container; lists stored into lists whose contents equal theirs; lists that contain themselves, observed through LENGTH and element reads only".into(),
         exhaustive: false,
         notes: vec![],
     }
@@ -1015,6 +1031,10 @@ pub fn c05(ctx: &Ctx) -> PropResult {
             }
         }
     }
+    // (appended) an expression that starts with a parenthesis and continues after it, wherever an expression stands
+    for (a, b) in crate::props6::leading_paren_positions() {
+        cases.push(run_case(a, "expression-position").aux(b));
+    }
     // the oracle runs the fully parenthesised twin on the implementation and compares behaviours
     let oracle = |case: &Case, out: &Outcome| -> Result<bool, String> {
         let Some(r) = out.impl_run.as_ref() else { return Ok(false) };
@@ -1036,7 +1056,7 @@ pub fn c05(ctx: &Ctx) -> PropResult {
     let stats = run_cases(&ctx.driver, cases, &oracle, &no_known, ctx.threads);
     PropResult {
         stats,
-        rule: format!("{} expression trees: every ordered pair of the 13 binary operators in both shapes, every binary operator with unary -, NOT, assignment and indexing at each operand (thorough: every triple in all five shapes), random trees with 2-8 operators incl. calls, assignment and indexing; each rendered with only the required parentheses and fully parenthesised, run under {} valuations (distinct primes, zeros for errors, mixed kinds) with a probe procedure at every leaf so that order, once-ness and short-circuiting show in the output; implementation-only oracle: both renderings behave identically (output, end class, error kind); the minimal rendering is also compared with the model; chains of postfix operators (indexing of an indexing or of a call result, two and three deep, under every binary and unary operator, as assignment target) with valuations failing at the first, second or third step; every triple of operators in the balanced shape (a . b) . (c . d); chains of 8 .. 70 operands plain / fully parenthesised / with doubled parentheses; the minimal text without any blank the lexical grammar does not need; number literals as operands after every kind of left operand; literal-only operands incl. zero divisors; required-parentheses-removed texts as a strided sample over all trees plus every tree with an assignment; assignments as index keys, call arguments and operands on both sides of every operator", trees.len(), per_tree),
+        rule: format!("{} expression trees: every ordered pair of the 13 binary operators in both shapes, every binary operator with unary -, NOT, assignment and indexing at each operand (thorough: every triple in all five shapes), random trees with 2-8 operators incl. calls, assignment and indexing; each rendered with only the required parentheses and fully parenthesised, run under {} valuations (distinct primes, zeros for errors, mixed kinds) with a probe procedure at every leaf so that order, once-ness and short-circuiting show in the output; implementation-only oracle: both renderings behave identically (output, end class, error kind); the minimal rendering is also compared with the model; chains of postfix operators (indexing of an indexing or of a call result, two and three deep, under every binary and unary operator, as assignment target) with valuations failing at the first, second or third step; every triple of operators in the balanced shape (a . b) . (c . d); chains of 8 .. 70 operands plain / fully parenthesised / with doubled parentheses; the minimal text without any blank the lexical grammar does not need; number literals as operands after every kind of left operand; literal-only operands incl. zero divisors; required-parentheses-removed texts as a strided sample over all trees plus every tree with an assignment; assignments as index keys, call arguments and operands on both sides of every operator; expressions that start with a parenthesis and continue after it at twelve expression positions", trees.len(), per_tree),
         exhaustive: false,
         notes: vec![],
     }
